@@ -38,6 +38,7 @@ K1 = bytes(range(1, 33))
 REAL_FORMATS = ["json", "yaml", "xml", "bson", "pickle"]
 INVARIANTS = ["TypeOK", "C19_Untouched", "C19_Exact", "C19_LoadsBack", "C19_FaultRaises"]
 PROPERTIES = ["C19_SerialiseThenOpen"]
+CTRL_CODES = [c for c in range(1, 32) if c not in (9, 10, 13)]
 PRE_OPEN_STEPS = {"R", "E", "K", "G", "D"}
 WRITE_STEPS = {"W", "B", "C"}
 
@@ -343,6 +344,9 @@ class Bench:
             elif kind in ("set", "raw"):
                 fld = kit.field("Field")
                 path = name
+            elif kind == "ctrlstr":
+                fld = kit.field(ex.get("cls", "StringField"))
+                path = name
             else:
                 raise ValueError("unknown field kind %r" % kind)
             fld.c19_index = j
@@ -379,6 +383,13 @@ class Bench:
             return {j, "x%d" % r} if rng is None else set(rng.sample(range(100), rng.randrange(1, 4)))
         if kind == "raw":
             return bytes([j % 256, 255, 0, r % 256])
+        if kind == "ctrlstr":
+            # a string holding a C0 control character (not tab / newline / carriage return)
+            if rng is None:
+                return "esc\x1b[%dm-%d" % (j, r)
+            body = [rng.choice("abcXYZ019_") for _ in range(rng.randrange(0, 8))]
+            body.insert(rng.randrange(len(body) + 1), chr(rng.choice(CTRL_CODES)))
+            return "".join(body)
         return None
 
     def assign_values(self, r):
@@ -659,8 +670,8 @@ INSTANCES = {
     ],
     "thorough": [
         ("one save, 1..4 fields, every single fault", dict(maxn=4, rounds=1, faults=1)),
-        ("two saves in a row, 1..2 fields of 5 kinds, 3 formats", dict(maxn=2, rounds=2, faults=1, kinds="MCKinds2", formats="MCFormats2")),
-        ("one save, 1..3 fields of 5 kinds, every pair of faults", dict(maxn=3, rounds=1, faults=2, kinds="MCKinds2")),
+        ("two saves in a row, 1..2 fields of 6 kinds, 3 formats", dict(maxn=2, rounds=2, faults=1, kinds="MCKinds2", formats="MCFormats2")),
+        ("one save, 1..3 fields of 6 kinds, every pair of faults", dict(maxn=3, rounds=1, faults=2, kinds="MCKinds2")),
     ],
 }
 
@@ -671,12 +682,14 @@ def gen_case(rng):
     n = rng.choice([1, 2, 3, 4, 5, 6, 8, 10])
     kinds, extras = [], []
     for _ in range(n):
-        kind = rng.choice(["plain"] * 6 + ["secret"] * 4 + ["esecret", "bsecret", "nsecret", "nsecret"] + rng.choice([["plain"], ["set", "huge", "raw"]]))
+        kind = rng.choice(["plain"] * 6 + ["secret"] * 4 + ["esecret", "bsecret", "nsecret", "nsecret"] + rng.choice([["plain"], ["ctrlstr"], ["set", "huge", "raw", "ctrlstr"]]))
         ex = {}
         if kind == "plain":
             ex["cls"] = rng.choice(PLAIN_CLASSES)
         if kind in ("secret", "esecret", "bsecret", "nsecret"):
             ex["method"] = rng.choice(["aes", "xor", "best"])
+        if kind == "ctrlstr":
+            ex["cls"] = rng.choice(["StringField", "Field", "AnyField"])
         if kind == "nsecret":
             ex["depth"] = rng.randrange(1, 4)
         kinds.append(kind)
@@ -873,7 +886,7 @@ def run(tier, seed):
         "evaluations": n_exec + d_rounds,
         "distinct_nontrivial": len(distinct),
         "rule": "spec->code: one case per complete behaviour of the TLC instance = (schema of 1..MaxN field kinds out of "
-        "plain/secret/unset secret/empty-string secret/nested secret/set/huge int) x (destination previously saved | absent) x per save (format x fault set x "
+        "plain/secret/unset secret/empty-string secret/nested secret/set/huge int/string with a control character) x (destination previously saved | absent) x per save (format x fault set x "
         "key file valid/wrong size/missing); code->spec: seeded random schemas of 1..10 fields, 8 plain field classes, nested depth <= 3, "
         "1..4 saves, up to 3 simultaneous faults, 6 formats incl. a registered custom one, format options, key sizes 0..64; "
         "distinct = distinct (schema, initial destination, per-save parameters); trivial = none excluded (every case has a "
@@ -882,7 +895,7 @@ def run(tier, seed):
     }
     out.assumptions = [
         "file contents are abstracted to absent/empty/prev/new/partial/other relative to the bytes at the start of the save and the bytes formatter.dumps returned",
-        "the third-party encoders (json, yaml, bson, pickle, xml.etree) are channels with a domain predicate (set, >64-bit int, raw bytes); their byte-level output is not modelled",
+        "the third-party encoders (json, yaml, bson, pickle, xml.etree) are channels with a domain predicate (set, >64-bit int, raw bytes, control-character string for xml); their byte-level output is not modelled",
         "what is on disk between write() and close() is not observed (buffered I/O); a chunked write of the complete serialisation is treated as one Write",
         "Encrypt is not observable from outside; only its effect (a fault raised after the key file was read; the secret decrypting on load) is",
         "faults at open-for-write / write / close of the destination (disk full, permissions) are outside the property's quantifier and are not injected",
